@@ -1,5 +1,5 @@
 """Per-property checks."""
-import hashlib, json, os, random, re, time
+import hashlib, json, os, random, re, shutil, time
 from driver import *
 import catcheck, refharness, gspec, cores
 
@@ -402,7 +402,40 @@ def check_C06(tier, seed):
     cases += [rel_case(g, ["C06"], lrf, lrf, suffix="_lr") for g in cores.lr_catalogue() + cores.random_lr(seed, 6 if quick else 60) if not gspec.uses_state(g)]
     twin = rel_case(pc[0], ["TWIN"], [], [], suffix="_twin")
     catcheck.prepare(w, cases + [twin])
-    agg = catcheck.explore(w, rep, cases, "C06", r"Harness_C06$", N, tmo, "rel", seed=seed, validate_pkgs=6 if quick else 20)
+    def confirm(w_, rel, hname, arg, model, msg):
+        """A double evaluation seen by the engine monitor changes no result, so the plain native replay cannot fail on
+        it. Confirm it on an instrumented scratch copy of the generated parser (never of /repo): parseExpr of the
+        memoizing variant records (expression node, offset) per parser object and reports a pair it sees twice."""
+        if "evaluated a second time" not in msg:
+            return None
+        case_dir = os.path.dirname(rel)           # h/<case>
+        src = os.path.join(w_.mod, case_dir)
+        dst = src + "_once"
+        if not os.path.isdir(dst):
+            shutil.copytree(src, dst)
+            old_imp, new_imp = "/" + os.path.basename(src) + "/", "/" + os.path.basename(dst) + "/"
+            for root, _, files in os.walk(dst):
+                for fn in files:
+                    if fn.endswith(".go"):
+                        fp = os.path.join(root, fn)
+                        with open(fp) as f:
+                            t = f.read()
+                        t = t.replace(old_imp, new_imp)
+                        if os.path.basename(root) == "b" and "func (p *parser) parseExpr(expr any) (any, bool) {" in t:
+                            t = t.replace("func (p *parser) parseExpr(expr any) (any, bool) {", "func (p *parser) parseExpr(expr any) (any, bool) {\n\tsymOnceHook(p, expr)", 1)
+                        with open(fp, "w") as f:
+                            f.write(t)
+            with open(os.path.join(dst, "b", "zz_once.go"), "w") as f:
+                f.write("package b\n\nimport (\n\t\"fmt\"\n\t\"os\"\n)\n\nvar symOnceParser *parser\nvar symOnceSeen map[string]bool\n\n"
+                        "func symOnceHook(p *parser, expr any) {\n\tif !p.memoize {\n\t\treturn\n\t}\n\tif p != symOnceParser {\n\t\tsymOnceParser, symOnceSeen = p, map[string]bool{}\n\t}\n"
+                        "\tk := fmt.Sprintf(\"%T %p @%d\", expr, expr, p.pt.offset)\n\tif symOnceSeen[k] {\n\t\tfmt.Fprintln(os.Stderr, \"SYMONCE: evaluated twice under Memoize(true):\", k)\n\t}\n\tsymOnceSeen[k] = true\n}\n")
+        rel2 = os.path.join(os.path.dirname(case_dir), os.path.basename(dst), os.path.basename(rel))
+        nat = native_run(w_, rel2, hname, arg, model)
+        twice = nat.get("marks") or []
+        if twice:
+            nat["fails"] = list(nat.get("fails") or []) + ["instrumented copy of the generated parser: " + twice[0][9:]]
+        return nat
+    agg = catcheck.explore(w, rep, cases, "C06", r"Harness_C06$", N, tmo, "rel", seed=seed, validate_pkgs=6 if quick else 20, confirm=confirm)
     twin_check(w, rep, twin)
     run_lemmas(w, rep, "C06", ["InOut", "Memo"], 1, only_std=True)
     std_cov(rep, agg, cases, {"input_bytes_max": N, "random_grammars": "seeded sample (seed %d), see catalog/cores.py random_grammars" % seed, "options": "Memoize, Debug, Statistics symbolic booleans (8 combinations)"},
@@ -626,7 +659,7 @@ def c19_grammars(quick, seed=0):
     # a label bound twice in one scope next to other labels (no flag needed): the parameter list of the code blocks
     out.append(("dup_labels", hdr + "S <- a:'x' b:'y' ('z' a:'w' c:'v') { return a, nil }\nT <- v:'1' w:'2' v:'3' u:'4' &{ return true, nil } #{ return nil }\n", dict()))
     # a failure label listed twice in one recovery operator, rules in a non-alphabetical order
-    out.append(("dup_faillabels", hdr + "S <- Z //{e1, e2, e1} Y //{e3, e3}\nZ <- 'a' / %{e1} / %{e3}\nY <- 'b' / %{e2}\nA <- Y Z\n", dict()))
+    out.append(("dup_faillabels", hdr + "S <- Z //{e1, e2, e1} Y //{e3, e3} 'q'\nZ <- 'a' / %{e1} / %{e3}\nY <- 'b' / %{e2}\nA <- Y Z\n", dict()))
     # the same left-recursive grammars with every rule on one source line (rules separated by ';')
     for name, text, fl in list(out):
         if fl.get("leftRec") and not name.startswith("lrrnd") and text.startswith(hdr):
@@ -1388,7 +1421,7 @@ def check_C18(tier, seed):
         with open(mp, "w") as f:
             json.dump({"model": model}, f)
         env = base_env()
-        env.update({"VERIF_REPLAY": mp, "VERIF_HARNESS": "Harness_C18native", "VERIF_ARG": str(arg)})
+        env.update({"VERIF_REPLAY": mp, "VERIF_HARNESS": "Harness_C18nativeopts" if "Option" in msg else "Harness_C18native", "VERIF_ARG": str(arg)})
         text, timed_out = run_group([out, "-test.run", "TestReplay$", "-test.v"], cwd=os.path.join(w_.mod, rel), env=env, timeout=180)
         nat = parse_native(text)
         if "WARNING: DATA RACE" in text:
@@ -1398,7 +1431,7 @@ def check_C18(tier, seed):
         nat["timeout"] = timed_out
         return nat
     for c_ in cases:
-        c_.harness_names = ["Harness_C18", "Harness_C18native", "Harness_C18abort", "Harness_C18order", "Harness_C18reader", "Harness_C18opts"]
+        c_.harness_names = ["Harness_C18", "Harness_C18native", "Harness_C18abort", "Harness_C18order", "Harness_C18reader", "Harness_C18opts", "Harness_C18sharedopts", "Harness_C18nativeopts"]
     catcheck.prepare(w, cases)
     # (quick: every second case under the full monitor with a nondeterministic pool - the dearest family)
     agg = catcheck.explore(w, rep, cases[::2] if quick else cases, "C18", r"Harness_C18$", N, tmo, "ref", seed=seed, validate_pkgs=5 if quick else 16, confirm=confirm)
@@ -1414,6 +1447,8 @@ def check_C18(tier, seed):
     agg = merge_agg(agg, catcheck.explore(w, rep, rd, "C18", r"Harness_C18reader$", N, tmo, "ref", seed=seed, validate_pkgs=2 if quick else 6, confirm=confirm))
     # the middle call with every runtime option set to its non-default value
     agg = merge_agg(agg, catcheck.explore(w, rep, rd, "C18", r"Harness_C18opts$", N, tmo, "ref", seed=seed, validate_pkgs=2 if quick else 6, confirm=confirm))
+    # one option list handed to all three calls, everything reachable from it under the ownership monitor
+    agg = merge_agg(agg, catcheck.explore(w, rep, rd, "C18", r"Harness_C18sharedopts$", N, tmo, "ref", seed=seed, validate_pkgs=2 if quick else 6, confirm=confirm))
     # order independence against a fresh process (first-call-wins caches): all cases, no monitor
     agg = merge_agg(agg, catcheck.explore(w, rep, cases, "C18", r"Harness_C18order$", N, tmo, "ref", seed=seed, validate_pkgs=3 if quick else 8, confirm=confirm))
     rep.cov.update({
